@@ -414,6 +414,23 @@ example : ∃ s, State.open 1000 true = .ok s ∧
       [.setClock 2000, .call 2 none .m_type ⟨.returns, .self⟩, .forceCreated 2 (.at 5), .delete 2] :=
   ⟨_, rfl, by decide +kernel, by decide +kernel, by decide +kernel, by decide +kernel, trivial⟩
 
+/-- the update time a listed setter wrote stays: after the call of `C19_auto_on_local`, over any
+further history in which no operation is directed at that entity (other entities may be changed,
+created, deleted, forced; the file may be re-opened; the clock may move either way), the entity
+still reports the time of that call -/
+theorem C19_listed_update_persists (s : State) (e : Nat) (ent : Ent) (m : Mem) (mb : Member)
+    (o : Outcome) (ops : List Op)
+    (he : s.ents[e]? = some ent) (halive : ent.alive = true) (hauto : s.auto = true)
+    (hm : m ∈ listed) (hres : resolve ent.kind.cls m = some mb) (ho : o ∈ mb.outcomes)
+    (hret : o.exit = .returns) (hclock : InRange s.clock)
+    (hnt : NotTargeted e (step s (.call e none m o)).1 ops) :
+    ∃ e', (run (step s (.call e none m o)).1 ops).ents[e]? = some e' ∧
+      readStamp e'.updated = .ok (some s.clock) ∧ e'.created = ent.created := by
+  obtain ⟨_, ⟨e1, h1, hu1, hc1⟩, _⟩ :=
+    C19_auto_on_local s e ent m mb o he halive hauto hm hres ho hret hclock
+  obtain ⟨e', h', hc, hu⟩ := C19_untargeted_history ops _ e e1 h1 hnt
+  exact ⟨e', h', by rw [hu]; exact hu1, hc.trans hc1⟩
+
 /-- a call that ends — by an exception or a `return` — on a path on which the idiom has not run,
 and a refused creation, leave the whole state as it was (whatever the switch says) -/
 theorem C19_refused_unchanged (s : State) (e : Nat) (via : Option Cls) (m : Mem) (k : Kind)
